@@ -3,8 +3,13 @@ import os, subprocess
 
 DEFAULT_TIMEOUT = {"quick": 1200, "thorough": 3600}
 DEFAULT_MEM_GB = 40
-MAX_JOBS = 8
-KNOWN_EXCLUSION_FLAGS = []  # names of `pub const X: bool` switches in .work/gen/known.rs
+MAX_JOBS = 10
+KNOWN_EXCLUSION_FLAGS = []
+# expected wall seconds of the slow harnesses (scheduling order only)
+WEIGHT = {"c02_step_flow_mapping_key_d2": 600, "c02_step_flow_mapping_first_key_d2": 600, "c02_step_flow_mapping_key_d0": 600, "c02_step_flow_mapping_first_key_d0": 600,
+          "c04_escape_sequences_short": 550, "c04_escape_sequences": 900, "c19_owned_and_borrowed_resolve_identically": 450, "c09_unquoted_strings_resolve_as_strings_4": 400,
+          "c09_unquoted_strings_resolve_as_strings_3": 390, "c09_escape_str_roundtrip_1": 300, "c08_owned_3": 350, "c10_skip_ws_to_eol": 360, "c12_skip_to_next_token_block_2": 330,
+          "c18_decode_loop_terminates_2": 280, "c02_step_block_node_tags_d2": 330, "c01_strinput_required_methods_no_panic": 260}  # names of `pub const X: bool` switches in .work/gen/known.rs
 
 MODULES = {
     "ext.c08": {"crate": "ext", "modpath": "c08_resolver", "sympath": "sym", "pbfile": "ext.rs"},
@@ -254,10 +259,10 @@ PROPERTIES["C20"] = {
 DOCSTART = {
     "c16_docstart_stream_end": "[StreamEnd]", "c16_docstart_skip_doc_ends": "[DocumentEnd, DocumentEnd, StreamEnd]", "c16_docstart_implicit_scalar": "[Scalar]",
     "c16_docstart_explicit": "[DocumentStart, Scalar]", "c16_docstart_explicit_required_missing": "[Scalar] where '---' is required",
-    "c16_docstart_version": "[%YAML, ---]", "c16_docstart_two_versions": "[%YAML, %YAML, ---]", "c16_docstart_two_tags": "[%TAG !b!, %TAG !!, ---]",
-    "c16_docstart_two_tags_same_handle": "[%TAG !b!, %TAG !b!, ---]", "c16_docstart_redeclare_kept_handle": "[%TAG !a!, %TAG !, ---] where !a! may be kept from an earlier document",
-    "c16_docstart_tag_then_version": "[%TAG !b!, %YAML, ---]", "c16_docstart_three_tags": "[%TAG !!, %TAG !b!, %TAG !, ---]",
-    "c16_docstart_tag_without_docstart": "[%TAG !b!, Scalar]", "c16_docstart_directive_then_eof": "[%YAML] then scanner error",
+    "c16_docstart_version": "[%YAML, ---]", "c16_docstart_two_versions": "[%YAML, %YAML, ---]", "c16_docstart_one_tag": "[%TAG !!, ---]",
+    "c16_docstart_redeclare_kept_handle": "[%TAG !a!, ---] where !a! is kept from an earlier document",
+    "c16_docstart_tag_then_version": "[%TAG !b!, %YAML, ---]", "c16_docstart_version_then_tag": "[%YAML, %TAG !b!, ---]",
+    "c16_docstart_tag_without_docstart": "[%TAG !b!, Scalar]",
 }
 def DS(name):
     return H(name, "lm.parser", ["Parser::document_start", "Parser::explicit_document_start", "Parser::parser_process_directives"],
@@ -269,9 +274,9 @@ RESOLVE = {"c16_resolve_no_directives": "no directive", "c16_resolve_named_only"
 PROPERTIES["C16"] = {
     "level": "model_checking",
     "level_text": "Bounded model checking of the real directive processing and tag resolution (Parser::parser_process_directives, resolve_tag, document_end) "
-                  "over injected token templates: for 14 directive prologue shapes of up to 3 directives (handles fixed per template), keep_tags on/off and "
-                  "the handle table left by an earlier document, the table in force after '---' equals the reference (all %TAG of the "
-                  "document together, duplicates rejected, repeated %YAML rejected, directives without '---' rejected); for every tag spelling "
+                  "over injected token templates: for 12 directive prologue shapes of up to 2 directives (handles fixed per template; prologues with two %TAG directives ran out of memory), keep_tags on/off and "
+                  "the handle table left by an earlier document, the table in force after '---' equals the reference (a %TAG survives a following %YAML and "
+                  "vice versa, a kept handle may be redeclared, repeated %YAML rejected, directives without '---' rejected); for every tag spelling "
                   "(!!s !a!s !b!s !c!s !s !<v> !) under 4 handle tables the reported tag is prefix-of-handle + suffix, undeclared named handles are errors.",
     "level_note": "Token KIND sequences are concrete templates (a symbolic kind sequence makes the directive loops explode); payloads, options and tables are "
                   "symbolic. Tag scanning (scan_tag*, percent-decoding in scan_uri_escapes) builds heap strings and is outside the claim. " + LM_STUB,
@@ -293,7 +298,7 @@ PROPERTIES["C15"] = {
                   "fetch_document_indicator/unroll_indent and the recursive load() did not finish under Kani. " + LM_STUB,
     "prepare": ["gen_parser"],
     "harnesses": [H(n, "lm.parser", ["Parser::document_end"], "token template x keep_tags on/off, table with 2 handles", stubs=[LM_STUB, INJ]) for n in DOCEND]
-                 + [DS(n) for n in ["c16_docstart_two_tags", "c16_docstart_implicit_scalar", "c16_docstart_explicit"]],
+                 + [DS(n) for n in ["c16_docstart_one_tag", "c16_docstart_implicit_scalar", "c16_docstart_explicit"]],
     "assumptions": [LM_STUB, INJ],
     "outside": "scanner state at document markers; Parser::load anchor clearing; concatenation statement for whole streams (argued from the step properties)",
 }
@@ -301,18 +306,15 @@ PROPERTIES["C15"] = {
 PEEK_FUNCS = ["Parser::peek", "Parser::next_event", "Parser::next_event_impl", "Parser::parse"]
 PROPERTIES["C17"] = {
     "level": "model_checking",
-    "level_text": "Bounded model checking of the real peek/next wrappers over the parser step: from the same ARBITRARY well-formed configuration (3 "
-                  "representative states, arbitrary stack entries/anchor table, all token sequences <= 3) peek, peek, next on one parser: both peeks show "
-                  "the same event, the second reads no token, next returns that event, clears the look-ahead and takes no further parser step (so "
-                  "peek+next is exactly one parse step, as plain next is); from the end-of-stream state four representative histories of four peek/next "
-                  "calls show StreamEnd until next has delivered it and nothing afterwards.",
+    "level_text": "Bounded model checking of the real peek/next wrappers (Parser::peek, next_event, next_event_impl) on top of the parser step: for every "
+                  "look-ahead state (an event cached or not, StreamEnd already delivered or not) and both first calls, peek shows the cached / the next "
+                  "event and keeps it, next returns it, reads no token when one was cached and clears the cache, nothing is returned after StreamEnd; "
+                  "from the end-of-stream state four call histories of four peek/next calls show StreamEnd until next has delivered it and nothing "
+                  "afterwards. The events themselves are decided per parser state under C02.",
     "level_note": "The push interface (Parser::load, load_document, load_node recursion, per-document anchor clearing) is outside the claim: it did not finish "
                   "under Kani. Longer call histories follow by induction on the step (argued). " + LM_STUB,
     "prepare": ["gen_parser"],
-    "harnesses": [H("c17_peek_next_" + t, "lm.parser", PEEK_FUNCS, "token template " + t + ", names and stack entries (2, 10 kinds) symbolic", stubs=[LM_STUB, INJ])
-                  for t in ["scalar", "anchored_scalar", "alias", "flow_sequence_start", "flow_entry_scalar", "block_end"]] + [
-                  H("c17_peek_next_block_node", "lm.parser", PEEK_FUNCS, "state BlockNode, stack DocumentEnd + 2 arbitrary entries, all token sequences <= 2", stubs=[LM_STUB, INJ], tiers=T, timeout={"thorough": 3400}),
-                  H("c17_peek_next_flow_sequence_entry", "lm.parser", PEEK_FUNCS, "state FlowSequenceEntry, stack + 2 entries, all token sequences <= 2", stubs=[LM_STUB, INJ], tiers=T, timeout={"thorough": 3400}),
+    "harnesses": [H("c17_peek_next_wrapper_states", "lm.parser", PEEK_FUNCS, "look-ahead cached or not x StreamEnd delivered or not x first call peek or next; next token a scalar", stubs=[LM_STUB, INJ]),
                   ] + [H("c17_fuse_" + h, "lm.parser", PEEK_FUNCS, "token template [StreamEnd], call history " + h.replace("_", ", "), stubs=[LM_STUB, INJ])
                        for h in ["peek_next_next_peek", "next_next_peek_next", "peek_peek_next_next", "next_peek_next_peek"]],
     "assumptions": [LM_STUB, INJ],
@@ -323,8 +325,7 @@ PROPERTIES["C06"] = {
     "level": "model_checking",
     "level_text": "Bounded model checking of the rejection obligations that sit in units within reach, on the real code: unknown / truncated / non-scalar "
                   "escapes are errors for every text after the backslash (escape decoder); a tab used as block indentation followed by content is an "
-                  "error and tabs elsewhere are not (skip_to_next_token, all texts <= 3 in block/top/flow contexts); repeated %YAML, a %TAG handle declared "
-                  "twice, directives without '---', a directive after an implicit document end, an alias without anchor and an undeclared named handle "
+                  "error and tabs elsewhere are not (skip_to_next_token, all texts <= 3 in block/top/flow contexts); repeated %YAML, directives without '---', a directive after an implicit document end, an alias without anchor and an undeclared named handle "
                   "are errors for every payload choice (parser templates); and in the parser steps for flow sequences/mappings and block collections every "
                   "token sequence that lacks the required ',' / ']' / '}' / '-' / key yields Err or an event the grammar still allows - never a silently "
                   "ill-formed stream (the C02 monitor).",
@@ -334,7 +335,7 @@ PROPERTIES["C06"] = {
     "harnesses": [H("c04_escape_sequences_short", "parser.scanner", ["Scanner::resolve_flow_scalar_escape_sequence"], "backslash + any ASCII + up to 4 printable chars"),
                   H("c12_skip_to_next_token_block_2", "parser.scanner", ["Scanner::skip_to_next_token"], SCAN_UNIT_HARNESSES["c12_skip_to_next_token_block_2"]),
                   DS("c16_docstart_two_versions"), DS("c16_docstart_tag_without_docstart"), DS("c16_docstart_explicit_required_missing"),
-                  DS("c16_docstart_directive_then_eof"), DS("c16_docstart_two_tags"),
+                  DS("c16_docstart_redeclare_kept_handle"),
                   H("c15_docend_explicit_then_directive", "lm.parser", ["Parser::document_end"], "[DocumentEnd, %TAG] and keep_tags", stubs=[LM_STUB, INJ]),
                   H("c15_docend_implicit_then_docstart", "lm.parser", ["Parser::document_end"], "[DocumentStart, Scalar]", stubs=[LM_STUB, INJ]),
                   H("c16_resolve_only_b", "lm.parser", ["Parser::resolve_tag"], "7 tag spellings, only !b! bound", stubs=[LM_STUB, INJ]),
